@@ -583,6 +583,37 @@ func runC14Cluster(r *Run, stratum string) *Violation {
 					start()
 				}})
 			}
+			if l.prevID == "" && crashes < maxCrashes {
+				// the source fails over and answers +CONTINUE: same offsets, new replication id, the previous one second.
+				// The tool moves the root checkpoint to the new id (UpdateCheckpoint at the next start / SetRunId), offset
+				// unchanged; every recovery record and the frontier written so far still carry the previous id
+				acts = append(acts, pipeAction{"failover-continue", 2, func() {
+					stalled = -1
+					r.W.Fault("source_failover_continue")
+					l.stop()
+					observe()
+					h := root.Get(0, l.cpName)
+					if h == nil || h.T != 'h' {
+						start()
+						return
+					}
+					old := l.runID
+					l.prevID, l.runID = old, "9e8d7c6b5a4f3e2d1c0b9a8f7e6d5c4b3a2f1e0d"
+					fields := map[string]string{}
+					for k, v := range h.Hash {
+						if !strings.HasPrefix(k, old+"_") {
+							fields[k] = string(v)
+						}
+					}
+					fields[l.runID+"_runid"] = l.runID
+					fields[l.runID+"_version"] = "1"
+					fields[l.runID+"_offset"] = string(h.Hash[old+"_offset"])
+					fields[l.runID+"_mtime"] = strconv.FormatInt(time.Now().UnixNano(), 10)
+					root.SetHash(0, l.cpName, fields)
+					r.Logf("FAILOVER (+CONTINUE): root checkpoint moved to id %s.., offset %s", l.runID[:6], fields[l.runID+"_offset"])
+					start()
+				}})
+			}
 			if graceful < 2 && crashes < maxCrashes {
 				acts = append(acts, pipeAction{"stop-start", 1, func() {
 					graceful++
